@@ -443,6 +443,14 @@ class InterpCore(object):
             return Unknown(src.tag if src.tag.endswith("+arith") else src.tag + "+arith")
         def _container(v):
             return isinstance(v, (ListV, DictV, SeqV)) or type(v).__name__ in ("SetAccV", "NTV", "LoopDictV")
+        if isinstance(op, ast.Mult) and ((_container(a) or is_strlike(a)) and isinstance(b, Num)
+                                         or (_container(b) or is_strlike(b)) and isinstance(a, Num)):
+            # sequence repetition with a count that is not a literal: [x] * n is n copies of x
+            seq, n = (a, b) if isinstance(b, Num) else (b, a)
+            if isinstance(seq, ListV) and len(seq.items) == 1 and not getattr(seq, "tail", None) and seq.kind in ("list", "tuple"):
+                var = self.fresh_sym("i")
+                return SeqV("family", var=var, lo=ep.const(0), hi=n.rf, elem=seq.items[0])
+            self.err(node, "repetition %r * %r" % (seq, n))
         if _container(a) and _container(b):
             # Python defines operators between containers (set algebra, concatenation, dict union); one the evaluator does
             # not model is the evaluator's gap, not a TypeError of the program
@@ -465,6 +473,10 @@ class InterpCore(object):
                 self.divisions.append((y, getattr(node, "lineno", None), self.stack[-1].label if self.stack else "?"))
                 return Num(x / y, True)
             if isinstance(op, ast.Pow):
+                if x.as_const() is not None and x.as_const() == 0 and y.as_const() is not None and y.as_const() < 0:
+                    # 0 ** negative: Python raises ZeroDivisionError ("0.0 cannot be raised to a negative power")
+                    from .symeval_ops import ExcV
+                    raise RaiseSignal(ExcV(ExtV("builtins.ZeroDivisionError"), [Const("0.0 cannot be raised to a negative power")]), node)
                 return Num(ep.pow_(x, y), inex or y.as_const() is None or y.as_const().denominator != 1 or y.as_const() < 0)
             if isinstance(op, ast.FloorDiv):
                 cx, cy = x.as_const(), y.as_const()
